@@ -86,7 +86,13 @@ Reduced(lm0) == LET lm == CanonRows(DropTrue(lm0))
               !.rows = [i \in 1..Len(lm.rows) |-> IF ConstRow(lm.rows[i]) THEN Truth(lm.rows[i])
                                                   ELSE [lm.rows[i] EXCEPT !.a = Sel(lm.rows[i].a, k)]]]
 \* classification of one round trip (what = which rendering, s = its recompilation)
+\* a compiled variable name with an index fragment the grammar has no token for (x_-1 from x_{i - 1},
+\* x_0.5, a string index with a blank or a dash, an empty string index): no spelling reads it back
+UnreadableName(ev) == \E i \in 1..Len(ev.namefrags) : \E k \in 1..Len(ev.namefrags[i].cls) : ev.namefrags[i].cls[k] = "other"
 Side(ev, what, s) ==
+   IF s.out = "parse_error" /\ UnreadableName(ev)
+   THEN {"KNOWN-NAME " \o what \o ": a variable name has an index fragment the grammar cannot read (negative or fractional number, string that is not a name)"}
+   ELSE
    IF s.out = "parse_error" /\ what = "rendered linear model" /\ Len(ev.lm.rows) = 0
    THEN {"KNOWN-SHAPE rendered linear model: a model without rows renders to a text the grammar rejects"}
    ELSE IF s.out # "ok" THEN {what \o " is rejected: " \o s.out}
